@@ -29,15 +29,14 @@ type blasMenus struct {
 
 func menusFor(g *vlib.G) blasMenus {
 	m := blasMenus{
-		dims:            []int{0, 1, 2, 3, 5},
-		dims1:           []int{0, 1, 2, 3, 5, 8, 9, 17},
-		dims2:           []int{0, 1, 2, 3, 5},
-		band:            []int{0, 1, 2, 3},
-		ldDelta:         []int{0, 2},
-		incs:            []int{-2, -1, 1, 2},
-		scalars:         [][2]complex128{{2, 3}, {0, 3}},
-		pairs:           true,
-		pairsAllScalars: true,
+		dims:    []int{0, 1, 2, 3, 5},
+		dims1:   []int{0, 1, 2, 3, 5, 8, 9, 17},
+		dims2:   []int{0, 1, 2, 3, 5},
+		band:    []int{0, 1, 2, 3},
+		ldDelta: []int{0, 2},
+		incs:    []int{-2, -1, 1, 2},
+		scalars: [][2]complex128{{2, 3}, {0, 3}},
+		pairs:   true,
 	}
 	if g.Thorough() {
 		m.band = []int{0, 1, 2, 3, 5}
